@@ -80,23 +80,46 @@ func cmp(a, b uint64) string {
 // rel classifies what router i holds about neighbour j.
 //
 //	fresh  the stored advertisement equals j's current one: a fetch would change nothing
+//	       ("fresh>k": and the recorded sequence number is k ahead of j's)
 //	stale  it differs and j's sequence number is ahead: the next sync Interest triggers a fetch
 //	stuck  it differs although i believes it is up to date (no fetch will ever be triggered)
-func (sn *Snap) rel(v table.VerifNeighbor) string {
+func (sn *Snap) rel(v table.VerifNeighbor) string { return sn.relAt(-1, v) }
+
+// relAt is rel for an entry of router i's neighbour table. While router i holds back the ribUpdate
+// of an advertisement of this neighbour, "fresh" is split: with the recorded number BEHIND the
+// neighbour's current one ("fresh<") the next sync Interest triggers a fetch whose own ribUpdate
+// processes the (equal) advertisement that the held task has not processed yet; with equal numbers
+// nothing happens until the release.
+func (sn *Snap) relAt(i int, v table.VerifNeighbor) string {
 	s := sn.s
 	j := s.IdxH(v.NameH)
 	if j < 0 || !s.Nodes[j].Up {
 		return "?"
 	}
 	cur := s.Nodes[j].DV.VerifAdvertSeq()
+	// A recorded number AHEAD of the neighbour's current one (possible only if a restarted
+	// neighbour comes back with a lower number than its previous incarnation used) is rendered with
+	// its margin: that many further changes of the neighbour will go unnoticed.
+	ahead := ""
+	if v.AdvertSeq > cur {
+		ahead = fmt.Sprintf(">%d", v.AdvertSeq-cur)
+	}
 	switch {
 	case advertString(s, v.Advert) == sn.adv[j]:
-		return "fresh"
+		if i >= 0 && v.AdvertSeq < cur && (s.HeldNbr < 0 || s.HeldNbr == j) && s.HeldAt(i) {
+			return "fresh<"
+		}
+		return "fresh" + ahead
 	case v.AdvertSeq < cur:
 		return "stale"
+	case v.AdvertSeq == cur:
+		return "stuck="
 	}
-	return "stuck" + cmp(v.AdvertSeq, cur)
+	return "stuck" + ahead
 }
+
+// relFresh: the stored advertisement equals the neighbour's current one.
+func relFresh(rel string) bool { return strings.HasPrefix(rel, "fresh") }
 
 // CanonRouting is the canonical form of everything that can influence future routing behaviour:
 // live topology, per router the neighbour table, the RIB costs below infinity, and the parked
@@ -105,7 +128,7 @@ func (sn *Snap) rel(v table.VerifNeighbor) string {
 //   - Sequence numbers appear only as the relation `rel` above. The stored advertisement itself
 //     is dead state once ribUpdate has run (only ribUpdate reads it, right after it was replaced):
 //     what matters is whether a fetch would bring something different and whether one can still be
-//     triggered.
+//     triggered. Exception: routers with held tasks (a delayed ribUpdate reads it on release).
 //   - Clock values do not appear: the only comparison the code makes (IsDead) is always taken
 //     right after a clock step longer than RouterDeadInterval in which exactly the live neighbours
 //     were refreshed (event Dc), so its outcome depends on the live-link set alone.
@@ -122,18 +145,33 @@ func (sn *Snap) CanonRouting() string {
 			continue
 		}
 		fmt.Fprintf(&b, "\n[r%d]", i)
+		if n.Booting {
+			b.WriteString(" BOOTING")
+		}
+		held := s.HeldAt(i)
 		for _, v := range sn.nb[i] {
 			act := "p"
 			if v.Active {
 				act = "a"
 			}
+			if held && (s.HeldNbr < 0 || s.IdxH(v.NameH) == s.HeldNbr) {
+				// A held ribUpdate(ns) of this router reads ns.Advert when it is released, which may be a
+				// later advertisement than the one it was spawned for (a further exchange replaces it in
+				// the same neighbour entry): while tasks are held the stored advertisements are live
+				// state. (Whether the held task's entry is still this one does not matter: an entry
+				// created later has been processed by its own ribUpdate, re-applying it changes nothing,
+				// exactly like the early return on the deleted entry.) Only the entry of the neighbour
+				// the held exchange was with (Sim.HeldNbr) is concerned; the other entries' advertisements
+				// stay dead state.
+				act += " A{" + advertString(s, v.Advert) + "}"
+			}
 			if j := s.IdxH(v.NameH); j >= 0 && s.Parallel[key(i, j)] {
 				// parallel faces, strictly alternating sync Interests: the stored face is always "the
 				// one the next sync Interest will not use"; which of the two it is does not matter
-				fmt.Fprintf(&b, " N(%s %s f*%s)", s.shortH(v.NameH), sn.rel(v), act)
+				fmt.Fprintf(&b, " N(%s %s f*%s)", s.shortH(v.NameH), sn.relAt(i, v), act)
 				continue
 			}
-			fmt.Fprintf(&b, " N(%s %s f%d%s)", s.shortH(v.NameH), sn.rel(v), v.FaceId, act)
+			fmt.Fprintf(&b, " N(%s %s f%d%s)", s.shortH(v.NameH), sn.relAt(i, v), v.FaceId, act)
 		}
 		for _, e := range sn.rib[i] {
 			if s.IdxH(e.NameH) == i && e.Lowest1 == 0 && s.IdxH(e.NextHop1) == i {
@@ -195,7 +233,7 @@ func (s *Sim) CanonRouting() string { return s.Snap().CanonRouting() }
 func (sn *Snap) Fresh(i, j int) bool {
 	for _, v := range sn.nb[i] {
 		if sn.s.IdxH(v.NameH) == j {
-			return sn.rel(v) == "fresh" && (v.FaceId == sn.s.FaceID(i, j) || sn.s.Parallel[key(i, j)]) && v.Active == !sn.s.Passive[[2]int{i, j}]
+			return sn.relAt(i, v) == "fresh" && (v.FaceId == sn.s.FaceID(i, j) || sn.s.Parallel[key(i, j)]) && v.Active == !sn.s.Passive[[2]int{i, j}]
 		}
 	}
 	return false
